@@ -40,7 +40,7 @@ var c01Kinds = []struct {
 
 var c01Positions = []string{
 	"alone", "override-onto-valid", "valid-onto-it", "second-document", "extends-child", "extends-base",
-	"tag-override", "tag-reset",
+	"tag-override", "tag-reset", "both-files", "extends-both",
 	"extends-other-file-child", "extends-other-file-base", "included-file",
 }
 
@@ -178,6 +178,23 @@ func c01SchemaCaseLeaf(p schemaPath, leaf any, kindName string, position string)
 		two(fat, leafDoc(segs, leaf))
 	case "valid-onto-it":
 		two(leafDoc(segs, leaf), fat)
+	case "both-files":
+		// the same (possibly ill-typed) node on both sides of a merge
+		two(leafDoc(segs, leaf), leafDoc(segs, cloneTree(leaf)))
+	case "extends-both":
+		if !isService || len(segs) < 3 {
+			return cs, false
+		}
+		ld := leafDoc(segs, leaf)
+		lsvc, ok := svcOf(ld)
+		lm, isMap := lsvc.(map[string]any)
+		if !ok || !isMap {
+			return cs, false
+		}
+		child := cloneTree(lm).(map[string]any)
+		child["extends"] = map[string]any{"service": "svc"}
+		ld["services"].(map[string]any)["child"] = child
+		one(ld)
 	case "second-document":
 		cs.Load = loadCase{Files: []memFile{{Name: "compose.yaml", Content: emitYAML(fat, nil) + "---\n" + emitYAML(leafDoc(segs, leaf), nil)}}, Main: []string{"compose.yaml"}}
 	case "tag-override":
@@ -673,7 +690,7 @@ func TestC01(t *testing.T) {
 	c.Extra("node_kinds", len(c01Kinds))
 
 	// (1) schema path x node kind x pipeline position
-	positions := c01Positions[:8]
+	positions := c01Positions[:10]
 	if c.Thorough() {
 		positions = c01Positions
 		c01FullBase = true
